@@ -24,9 +24,10 @@ func main() {
 	short := flag.Bool("s", false, "short output")
 	opt := flag.Bool("opt", false, "optimize")
 	kind := flag.String("kind", "analyzed", "print kind")
+	ann := flag.Bool("ann", false, "evaluate compiled annotations")
 	flag.Parse()
 	req := &sb.Request{Op: *op, Modules: map[string]string{}, Backends: strings.Split(*backends, ","),
-		Limits: sb.Limits{Call: *call, Stack: *stack, Mem: *mem, TreeCall: *call}, CancelAt: *cancelAt, PollCap: *pollCap, WantRender: true, Optimize: *opt, PrintKind: *kind}
+		Limits: sb.Limits{Call: *call, Stack: *stack, Mem: *mem, TreeCall: *call}, CancelAt: *cancelAt, PollCap: *pollCap, WantRender: true, Optimize: *opt, PrintKind: *kind, Annotations: *ann}
 	if *expr != "" {
 		req.Modules["main"] = *expr
 		req.Entry = "main"
@@ -62,6 +63,9 @@ func main() {
 		for _, r := range resp.Runs {
 			fmt.Printf("[%s] outcome=%s kind=%s msg=%q polls=%d residue=%+v\n", r.Backend, r.Outcome.Class, r.Outcome.Kind, r.Outcome.Message, r.Polls, r.Residue)
 			fmt.Printf("  writes: %q\n", strings.Join(r.Writes, ""))
+			if len(r.Annotations) > 0 {
+				fmt.Printf("  annotations: %q\n", r.Annotations)
+			}
 			if len(r.Triggers) > 0 {
 				fmt.Printf("  triggers: %+v\n", r.Triggers)
 			}
